@@ -2,20 +2,20 @@
 (* Observation validator (U3, function style): every record the Go harnesses logged from real
    zcrypto handshakes (harness/cmd/c24, c27, c28, c31, c32 through harness/lib/tlsh) is judged by
    the A-layer operators of TLSHandshake.tla.  One line <<"REJECT", i, facts-as-JSON>> is printed
-   per rejected record (i = 1-based line of tlshs_obs.ndjson); <<"JUDGED", n>> proves that the
-   whole file was read. *)
+   per problem of a rejected record (i = 1-based line of tlshs_obs.ndjson); <<"JUDGED", n>> proves
+   that the whole file was read. *)
 EXTENDS TLSHandshake, Json
 
 CONSTANT Prop   \* which judge: "C24", "C27", "C28", "C31", "C32"
 
 Obs == ndJsonDeserialize("tlshs_obs.ndjson")
 
-Kind(o)  == CASE Prop = "C24" -> Judge24(o)
-              [] Prop = "C31" -> Judge31(o)
-Facts(o) == CASE Prop = "C24" -> Facts24(o)
-              [] Prop = "C31" -> Facts31(o)
+One(kind, facts) == IF kind = "ok" THEN {} ELSE {facts}
+Problems(o) == CASE Prop = "C24" -> IF Judge24(o) = "ok" THEN {} ELSE {Facts24(o)}
+                 [] Prop = "C31" -> IF Judge31(o) = "ok" THEN {} ELSE {Facts31(o)}
+                 [] Prop = "C27" -> IF Judge27(o) = "ok" THEN {} ELSE {Facts27(o)}
+                 [] Prop = "C28" -> Problems28(o)
 
-ASSUME \A i \in 1..Len(Obs) :
-         Kind(Obs[i]) = "ok" \/ PrintT(<<"REJECT", i, ToJson(Facts(Obs[i]))>>)
+ASSUME \A i \in 1..Len(Obs) : \A p \in Problems(Obs[i]) : PrintT(<<"REJECT", i, ToJson(p)>>)
 ASSUME PrintT(<<"JUDGED", Len(Obs)>>)
 =============================================================================
